@@ -17,7 +17,7 @@ open Morlock Morlock.Model Morlock.Model.World Morlock.Model.Score Morlock.Proof
 variable {P : Type}
 
 /-- A list of searches whose roots are reached from `root` is covered by one tree list. -/
-theorem trees_cover {g : Game P} {ex : Explore} {root : P} {D : Nat} {l : List (P × Nat)}
+theorem trees_cover {g : Game P} {ex : P → Explore} {root : P} {D : Nat} {l : List (P × Nat)}
     (h : ∀ pd ∈ l, ∃ k, Reach g ex k root pd.1 ∧ k + pd.2 ≤ D) :
     ∀ n q, Trees g ex l n q → q ∈ treeList g ex root D := by
   intro n q ⟨pd, hpd, ht⟩
@@ -27,7 +27,7 @@ theorem trees_cover {g : Game P} {ex : Explore} {root : P} {D : Nat} {l : List (
 /-! ## The fuel of the quiescence leaves is immaterial for the main search on the chess game -/
 
 /-- The explored children of a world satisfying the play invariant satisfy it. -/
-theorem inv_kids {z : ZTable} {ev : Position → Color → Int} {ex : Explore} {w c : World} (h : Inv w)
+theorem inv_kids {z : ZTable} {ev : Position → Color → Int} {ex : World → Explore} {w c : World} (h : Inv w)
     (hc : c ∈ kids (boardGame z ev) ex w ((boardGame z ev).moves w)) : Inv c := by
   obtain ⟨m, hm, _, hpush⟩ := mem_kids hc
   exact inv_push h hm hpush
@@ -35,7 +35,7 @@ theorem inv_kids {z : ZTable} {ev : Position → Color → Int} {ex : Explore} {
 /-- **The reference value of the main search with captures-only quiescence leaves does not depend on the fuel**
     (from 64 on), at every world satisfying the play invariant `Inv` (every world reached by legal play from a
     well-formed start): the Go code, which has no fuel, is modelled faithfully by fuel 64. -/
-theorem V_fuel_irrelevant (z : ZTable) (ev : Position → Color → Int) (ex qx : Explore) (hq : CapturesOnly qx)
+theorem V_fuel_irrelevant (z : ZTable) (ev : Position → Color → Int) (ex qx : World → Explore) (hq : CapturesOnly qx)
     (rootPly : Int) (fuel : Nat) (hf : 64 ≤ fuel) :
     ∀ d w, Inv w → V (boardGame z ev) ex (.quiescence qx fuel) rootPly d w =
       V (boardGame z ev) ex (.quiescence qx 64) rootPly d w := by
@@ -66,7 +66,7 @@ theorem push_ply {w w' : World} {z : ZTable} {m : Move} (hx : 0 < w.boards.size)
   rfl
 
 /-- Every position `k` steps below a world satisfying the play invariant satisfies it, and its ply is `k` larger. -/
-theorem reach_inv_ply (z : ZTable) (ev : Position → Color → Int) (ex : Explore) {w : World} (h : Inv w) :
+theorem reach_inv_ply (z : ZTable) (ev : Position → Color → Int) (ex : World → Explore) {w : World} (h : Inv w) :
     ∀ k q, Reach (boardGame z ev) ex k w q →
       Inv q ∧ (boardGame z ev).ply q = (boardGame z ev).ply w + (k : Int) := by
   intro k
@@ -86,7 +86,7 @@ theorem reach_inv_ply (z : ZTable) (ev : Position → Color → Int) (ex : Explo
 
 /-- **On the chess game the root-ply condition of C11 / C12 holds for the tree of every search whose root satisfies
     the play invariant and is not drawn** (the ply grows by one with every move). -/
-theorem boardGame_rootFreeOn (z : ZTable) (ev : Position → Color → Int) (ex : Explore) {w : World} (h : Inv w)
+theorem boardGame_rootFreeOn (z : ZTable) (ev : Position → Color → Int) (ex : World → Explore) {w : World} (h : Inv w)
     (hd : (boardGame z ev).isDraw w = false) (d : Nat) :
     RootFreeOn (boardGame z ev) (Tree (boardGame z ev) ex w d) ((boardGame z ev).ply w) := by
   intro n p ⟨k, _, hr⟩ hdraw
@@ -98,8 +98,11 @@ theorem boardGame_rootFreeOn (z : ZTable) (ev : Position → Color → Int) (ex 
 /-- The material game with the sample Zobrist table of C07. -/
 def gX : Game World := materialGame exZ
 
-/-- The captures-only exploration of the driver's quiescence search. -/
-def capX : Explore := { prio := mvvlva, pick := fun m => m.isCapture }
+/-- The captures-only exploration of the driver's quiescence search (the same on every board). -/
+def capX : World → Explore := constEx { prio := mvvlva, pick := fun m => m.isCapture }
+
+/-- The full exploration (the same on every board). -/
+def fullX : World → Explore := constEx fullExploration
 
 theorem gX_evalOk : EvalOk gX := materialGame_evalOk exZ
 
@@ -129,7 +132,7 @@ theorem wS_push_nf3 : gX.push wS Props.C05.nf3 = some w1 := by
   | none => rw [hh] at h; cases h
   | some c => rfl
 
-theorem wS_reach_w1 : Reach gX fullExploration 1 wS w1 :=
+theorem wS_reach_w1 : Reach gX fullX 1 wS w1 :=
   ⟨wS, rfl, Props.C05.nf3, by decide +kernel, rfl, wS_push_nf3⟩
 
 theorem wS_ply : gX.ply wS = 1 := by decide +kernel
@@ -137,24 +140,24 @@ theorem wE_ply : gX.ply wE = 1 := by decide +kernel
 
 /-! ## `wS`: the tree of depth 2 -/
 
-theorem wS_tree_size : (treeList gX fullExploration wS 2).length = 73 := by decide +kernel
+theorem wS_tree_size : (treeList gX fullX wS 2).length = 73 := by decide +kernel
 
-theorem wS_tree_noDrawB : ((treeList gX fullExploration wS 2).all fun q => !gX.isDraw q) = true := by decide +kernel
+theorem wS_tree_noDrawB : ((treeList gX fullX wS 2).all fun q => !gX.isDraw q) = true := by decide +kernel
 
-theorem wS_tree_hashes : ((treeList gX fullExploration wS 2).map gX.hash).Nodup := by decide +kernel
+theorem wS_tree_hashes : ((treeList gX fullX wS 2).map gX.hash).Nodup := by decide +kernel
 
 /-- No position of the depth-2 tree below `wS` is drawn. -/
-theorem wS_noDraw : NoDrawOn gX (Tree gX fullExploration wS 2) :=
+theorem wS_noDraw : NoDrawOn gX (Tree gX fullX wS 2) :=
   noDrawOn_of_list _ (fun _ _ h => tree_mem_treeList h (Nat.le_refl _)) wS_tree_noDrawB
 
 /-- The positions of the depth-2 tree below `wS` have pairwise distinct hashes. -/
-theorem wS_hashOK (le : LeafEval) : HashOKOn gX fullExploration le (Tree gX fullExploration wS 2) :=
-  hashOKOn_of_list fullExploration le _ (fun _ _ h => tree_mem_treeList h (Nat.le_refl _)) wS_tree_hashes
+theorem wS_hashOK (le : LeafEval World) : HashOKOn gX fullX le (Tree gX fullX wS 2) :=
+  hashOKOn_of_list fullX le _ (fun _ _ h => tree_mem_treeList h (Nat.le_refl _)) wS_tree_hashes
 
 /-- Searches of `wS` (depths 1, 2, 2 again) and of its successor `w1` (depth 1), threading one table. -/
 def seqX : List (World × Nat) := [(wS, 1), (wS, 2), (wS, 2), (w1, 1)]
 
-theorem seqX_cover : ∀ n q, Trees gX fullExploration seqX n q → q ∈ treeList gX fullExploration wS 2 := by
+theorem seqX_cover : ∀ n q, Trees gX fullX seqX n q → q ∈ treeList gX fullX wS 2 := by
   apply trees_cover
   intro pd hpd
   simp only [seqX, List.mem_cons, List.mem_nil_iff, or_false] at hpd
@@ -164,25 +167,25 @@ theorem seqX_cover : ∀ n q, Trees gX fullExploration seqX n q → q ∈ treeLi
   · exact ⟨0, rfl, by decide⟩
   · exact ⟨1, wS_reach_w1, by decide⟩
 
-theorem seqX_noDraw : NoDrawOn gX (Trees gX fullExploration seqX) :=
+theorem seqX_noDraw : NoDrawOn gX (Trees gX fullX seqX) :=
   noDrawOn_of_list _ seqX_cover wS_tree_noDrawB
 
-theorem seqX_hashOK (le : LeafEval) : HashOKOn gX fullExploration le (Trees gX fullExploration seqX) :=
-  hashOKOn_of_list fullExploration le _ seqX_cover wS_tree_hashes
+theorem seqX_hashOK (le : LeafEval World) : HashOKOn gX fullX le (Trees gX fullX seqX) :=
+  hashOKOn_of_list fullX le _ seqX_cover wS_tree_hashes
 
 /-! ## `wE`: the tree of depth 1 -/
 
-theorem wE_tree_size : (treeList gX fullExploration wE 1).length = 37 := by decide +kernel
+theorem wE_tree_size : (treeList gX fullX wE 1).length = 37 := by decide +kernel
 
-theorem wE_tree_noDrawB : ((treeList gX fullExploration wE 1).all fun q => !gX.isDraw q) = true := by decide +kernel
+theorem wE_tree_noDrawB : ((treeList gX fullX wE 1).all fun q => !gX.isDraw q) = true := by decide +kernel
 
-theorem wE_tree_hashes : ((treeList gX fullExploration wE 1).map gX.hash).Nodup := by decide +kernel
+theorem wE_tree_hashes : ((treeList gX fullX wE 1).map gX.hash).Nodup := by decide +kernel
 
-theorem wE_noDraw : NoDrawOn gX (Tree gX fullExploration wE 1) :=
+theorem wE_noDraw : NoDrawOn gX (Tree gX fullX wE 1) :=
   noDrawOn_of_list _ (fun _ _ h => tree_mem_treeList h (Nat.le_refl _)) wE_tree_noDrawB
 
-theorem wE_hashOK (le : LeafEval) : HashOKOn gX fullExploration le (Tree gX fullExploration wE 1) :=
-  hashOKOn_of_list fullExploration le _ (fun _ _ h => tree_mem_treeList h (Nat.le_refl _)) wE_tree_hashes
+theorem wE_hashOK (le : LeafEval World) : HashOKOn gX fullX le (Tree gX fullX wE 1) :=
+  hashOKOn_of_list fullX le _ (fun _ _ h => tree_mem_treeList h (Nat.le_refl _)) wE_tree_hashes
 
 theorem wS_notDraw : gX.isDraw wS = false := by decide +kernel
 theorem wE_notDraw : gX.isDraw wE = false := by decide +kernel
